@@ -9,7 +9,7 @@ from ..models import conventions as conv
 
 ID = "C14"
 NEEDS_SHIM = False
-BUDGET = {"quick": 2400, "thorough": 60000}
+BUDGET = {"quick": 2400, "thorough": 300000}
 MIN_EVALS = {"quick": 2500, "thorough": 60000}
 RULE = (
     "seeded random specs encoded into attributes by independent encoders and parsed back by Grid(ds) without coords: "
